@@ -106,6 +106,43 @@ def run(prop: str, tier: str) -> int:
             eq_rows.append({"id": len(eq_rows) + 1, "prop": "C20", "kind": "unitary", "mov": [1, 1], "what": "t_inverse", "roles": [k],
                             "src": [prot({"x": [0, 0, 0], "z": [1 if j == k else 0 for j in range(3)], "ph": 0}, -(UNIT // 4))],
                             "tgt": gate_rows(conn.ex.gate_log, {p: p + 1 for p in range(3)})})
+        # ---- the same circuits directly after an SDK conditional whose body ends in a gate on the circuit's first qubit,
+        #      in the same subroutine, with the branch taken and not taken (another qubit was measured in place just before)
+        for perm in itertools.permutations((0, 1, 2)):
+            for outcome in (0, 1):
+                conn = rig.VConnection("alice")
+                conn.ex.meas_script = [outcome]
+                qs = [Qubit(conn) for _ in range(3)]
+                conn.flush()
+                mark = len(conn.ex.gate_log)
+                tq = qs[perm[2]]                                   # toffoli_gate starts with H on the target
+                m = qs[perm[0]].measure(inplace=True)
+                with m.if_eq(1):
+                    tq.X()
+                toffoli_gate(qs[perm[0]], qs[perm[1]], qs[perm[2]])
+                conn.flush()
+                log = conn.ex.gate_log[mark:]
+                k = next(i for i, g in enumerate(log) if g[0] == "meas")
+                src = ([G("x", perm[2] + 1)] if outcome else []) + toffoli_reference(perm[0] + 1, perm[1] + 1, perm[2] + 1)
+                eq_rows.append({"id": len(eq_rows) + 1, "prop": "C20", "kind": "unitary", "mov": [1, 1], "what": "toffoli-after-conditional", "roles": list(perm) + [outcome],
+                                "src": src, "tgt": gate_rows(log[k + 1:], {p: p + 1 for p in range(3)})})
+        for k_ in (0, 1):
+            for outcome in (0, 1):
+                conn = rig.VConnection("alice")
+                conn.ex.meas_script = [outcome]
+                qs = [Qubit(conn) for _ in range(2)]
+                conn.flush()
+                mark = len(conn.ex.gate_log)
+                m = qs[1 - k_].measure(inplace=True)
+                with m.if_eq(1):
+                    qs[k_].X()
+                t_inverse(qs[k_])
+                conn.flush()
+                log = conn.ex.gate_log[mark:]
+                k = next(i for i, g in enumerate(log) if g[0] == "meas")
+                eq_rows.append({"id": len(eq_rows) + 1, "prop": "C20", "kind": "unitary", "mov": [1, 1], "what": "t_inverse-after-conditional", "roles": [k_, outcome],
+                                "src": ([G("x", k_ + 1)] if outcome else []) + [prot({"x": [0, 0, 0], "z": [1 if j == k_ else 0 for j in range(3)], "ph": 0}, -(UNIT // 4))],
+                                "tgt": gate_rows(log[k + 1:], {p: p + 1 for p in range(3)})})
         res = C.run_tlc_sharded("NvEquiv", eq_rows, tmp, shards=4)
         bad = {}
         for v in res.verdicts:
@@ -128,7 +165,11 @@ def run(prop: str, tier: str) -> int:
                     for outcome in ((0, 1) if tier == "thorough" or n < 3 else (rng.randrange(2),)):
                         conn = rig.VConnection("alice")
                         conn.ex.meas_script = [outcome]
-                        qs = [Qubit(conn) for _ in range(n)]
+                        conn.ex.log_clear = True
+                        # virtual ids in allocation order, or (second outcome / every other string) ids 1..n so that the
+                        # ancilla gets virtual id 0 on the LAST physical qubit: virtual and physical numbering differ
+                        sparse = outcome == 1 or (len(prow) % 2 == 1)
+                        qs = [Qubit(conn, virtual_address=k + 1) for k in range(n)] if sparse else [Qubit(conn) for _ in range(n)]
                         conn.flush()
                         mark = len(conn.ex.gate_log)
                         bases = ("-" if neg else "") + "".join(letters)
@@ -138,7 +179,8 @@ def run(prop: str, tier: str) -> int:
                         except Exception as ex:
                             V.add("parity-meas-raises", {"bases": bases}, f"{type(ex).__name__}: {ex}")
                             continue
-                        log = conn.ex.gate_log[mark:]
+                        full = conn.ex.gate_log[mark:]
+                        log = [g for g in full if g[0] != "clear"]
                         nonid = [c for c in letters if c != "I"]
                         got = int(m) if not isinstance(m, int) else m
                         want = (outcome if nonid else 0) ^ (1 if neg else 0)
@@ -158,7 +200,8 @@ def run(prop: str, tier: str) -> int:
                         for p in range(n + 1, 6):
                             p2q[p] = 4
                         k = meas[0]
-                        prow.append({"id": len(prow) + 1, "letters": list(letters), "neg": neg, "bases": bases,
+                        prow.append({"id": len(prow) + 1, "letters": list(letters), "neg": neg, "bases": bases, "sparse_ids": sparse,
+                                     "cleared": [p2q[g[3][0]] for g in full if g[0] == "clear"],
                                      "meas_qubit": p2q[log[k][3][0]], "pre": gate_rows(log[:k], p2q), "post": gate_rows(log[k + 1:], p2q)})
         resp = C.run_tlc_sharded("ParityCheck", prow, tmp, shards=C.ncpu())
         badp = {}
@@ -184,13 +227,20 @@ def run(prop: str, tier: str) -> int:
         grid += [(rng.uniform(-2 * math.pi, 4 * math.pi), rng.uniform(-2 * math.pi, 2 * math.pi)) for _ in range(20 if tier == "quick" else 300)]
         for theta, phi in grid:
             conn = rig.VConnection("alice")
+            conn.ex.meas_script = [0]
             q0 = Qubit(conn)
             q = Qubit(conn)
             conn.flush()
             mark = len(conn.ex.gate_log)
+            after_if = len(arow) % 3 == 2
+            if after_if:
+                # directly after a conditional (not taken) whose body ends in a gate on the same qubit
+                m = q0.measure(inplace=True)
+                with m.if_eq(1):
+                    q.X()
             set_qubit_state(q, phi=phi, theta=theta)
             conn.flush()
-            log = conn.ex.gate_log[mark:]
+            log = [g for g in conn.ex.gate_log[mark:] if g[0] != "meas"]
             names = [g[0] for g in log]
             ok_struct = all(g[3] == (1,) for g in log) and set(names) <= {"rot_y", "rot_z"} and names == sorted(names)
             if not ok_struct:
